@@ -83,6 +83,9 @@ func header(scs []Scenario, tr *Trace) []string {
 	tr.Emit(M{"ev": "def_names", "names": names, "nbatch": nb})
 	nf := normFunc(kind, universe)
 	table := M{}
+	if kind == "const" {
+		maxLen = 0 // one entry per field: the same norm for every length (field lengths near 2^31)
+	}
 	for _, f := range universe {
 		row := make([]int, maxLen+1)
 		for l := 0; l <= maxLen; l++ {
